@@ -15,10 +15,10 @@ pub fn t1() -> BoxedStrategy<Value> {
         0u8..48,
         (0u8..2, any::<bool>(), 0usize..6, 0u8..3),
         (0u8..5, 0u8..7, any::<bool>(), any::<bool>(), 0u8..3),
-        (any::<bool>(), 0u8..3),
+        (any::<bool>(), 0u8..3, 0u8..4),
     )
         .prop_map(
-            |(align, (link_mode, a_pinned, site_i, rel_kind), (j, k, unlink_first, b_releases, collector), (third_owner, late))| {
+            |(align, (link_mode, a_pinned, site_i, rel_kind), (j, k, unlink_first, b_releases, collector), (third_owner, late, p_early))| {
                 const SITES: [u32; 6] = [0, site::EPOCH_LOADED, site::DEC_S_LOAD, site::DEC_S_CAS, site::EPOCH_LOAD, site::LINK_SWAP];
                 let park = SITES[site_i];
                 let (a, b, c) = (0usize, 1usize, 2usize);
@@ -43,6 +43,13 @@ pub fn t1() -> BoxedStrategy<Value> {
                 }
                 t.unpin(a, 0);
                 t.run(a);
+                // 0. optionally P is unlinked some epochs before the dropper starts
+                if p_early > 0 {
+                    t.swap_null(c, C::Root(0), "P");
+                    t.drop_rc(c, "P");
+                    t.advance(c, p_early - 1);
+                    t.run(c);
+                }
                 // 1. A starts releasing its share of X and is parked inside
                 if a_pinned {
                     t.pin(a);
@@ -69,8 +76,10 @@ pub fn t1() -> BoxedStrategy<Value> {
                 }
                 t.run_until_site(a, park, 1);
                 let unlink = |t: &mut TB| {
-                    t.swap_null(c, C::Root(0), "P");
-                    t.drop_rc(c, "P");
+                    if p_early == 0 {
+                        t.swap_null(c, C::Root(0), "P");
+                        t.drop_rc(c, "P");
+                    }
                     t.advance(c, j);
                     t.run(c);
                 };
@@ -141,21 +150,28 @@ pub fn t2() -> BoxedStrategy<Value> {
     (
         0u8..48,
         (0u8..4, 0usize..6, 0u8..5, 0u8..14, 0u8..9, 0u8..4),
-        (any::<bool>(), 0usize..3, any::<bool>()),
+        (any::<bool>(), 0usize..3, any::<bool>(), 0u8..3),
     )
-        .prop_map(|(align, (a_r, site_i, b_r, c_r, keep, d_r), (via_snapshot, td_site_i, second_weak))| {
+        .prop_map(|(align, (a_r, site_i, b_r, c_r, keep, d_r), (via_snapshot, td_site_i, second_weak, rival))| {
             const SITES: [u32; 6] = [0, site::INC_S_1, site::INC_S_2, site::IND_CAS, site::IND_LOAD, site::EPOCH_LOADED];
             const TD_SITES: [u32; 3] = [0, site::TD_LOAD, site::TD_CAS];
             let park = SITES[site_i];
             let td_park = TD_SITES[td_site_i];
-            let (t0, u) = (0usize, 1usize);
-            let mut t = TB::new(2);
+            let (t0, u, u2) = (0usize, 1usize, 2usize);
+            let mut t = TB::new(3);
             t.new_node(t0, "X", None, None, 3, 10);
             t.downgrade(t0, "X", "w");
             t.pin(t0);
             t.wstore(t0, WC::Root(0), Some("w"), 0);
             t.unpin(t0, 0);
             t.run(t0);
+            if rival > 0 {
+                t.pin(u2);
+                t.wload(u2, WC::Root(0), 0, "ws");
+                t.wcounted(u2, "ws", "w");
+                t.unpin(u2, 0);
+                t.run(u2);
+            }
             t.pin(u);
             t.wload(u, WC::Root(0), 0, "ws");
             t.wcounted(u, "ws", "w");
@@ -178,6 +194,14 @@ pub fn t2() -> BoxedStrategy<Value> {
             } else {
                 t.upgrade(u, "w", true, "Xu");
                 t.run_until_site(u, park, 1);
+            }
+            // 2b. optionally a rival upgrade (or clone+drop of the result) completes meanwhile
+            if rival > 0 {
+                t.upgrade(u2, "w", true, "Xr");
+                if rival == 2 {
+                    t.drop_rc(u2, "Xr");
+                }
+                t.run(u2);
             }
             // 3. the owner's side collects (possibly itself parked inside try_destruct)
             t.advance(t0, b_r);
@@ -213,7 +237,500 @@ pub fn t2() -> BoxedStrategy<Value> {
             t.advance(u, 5);
             t.upgrade(u, "w", false, "Xv");
             t.run(u);
+            if rival == 1 {
+                t.deref(u2, "Xr");
+                t.drop_rc(u2, "Xr");
+                t.run(u2);
+            }
             t.finish(align, "T2")
+        })
+        .boxed()
+}
+
+/// T3: reader on a chain with Harris-style unlink.
+pub fn t3() -> BoxedStrategy<Value> {
+    (
+        0u8..48,
+        (2u8..6, 0u8..5, 0u8..4, 1u8..3),
+        (0u8..5, 0u8..6, any::<bool>(), 0u8..3, 0usize..4),
+    )
+        .prop_map(|(align, (n, walk, i, m), (j, k, counted_desired, band, site_i))| {
+            const SITES: [u32; 4] = [0, site::LINK_LOAD, site::LINK_CAS, site::EPOCH_LOADED];
+            let (a, b, c) = (0usize, 1usize, 2usize);
+            let mut t = TB::new(3);
+            // chain N0 -> N1 -> ... -> Nn under root0, built back to front by A; links are stamped
+            // (stores under a guard) in `band`+1 consecutive epochs
+            let names: Vec<String> = (0..=n).map(|x| format!("N{}", x)).collect();
+            t.pin(a);
+            for x in (0..=n as usize).rev() {
+                t.new_node(a, &names[x], None, None, 3, (x as u8) * 2);
+                if x < n as usize {
+                    // newest slot is names[x]; its successor was stored nowhere yet: keep Rc of x+1
+                    t.store(a, C::Edge(Box::leak(names[x].clone().into_boxed_str()), 0), Some(&names[x + 1]), 0);
+                }
+                if band > 0 && x % 2 == 0 {
+                    t.unpin(a, 0);
+                    t.advance(a, 1);
+                    t.pin(a);
+                }
+            }
+            t.store(a, C::Root(0), Some("N0"), 0);
+            t.unpin(a, 0);
+            t.run(a);
+            // B walks `walk` links under one guard and stops
+            t.pin(b);
+            t.load(b, C::Root(0), 0, "s0");
+            let mut cur = "s0".to_string();
+            for d in 0..walk.min(n) {
+                let nm = format!("s{}", d + 1);
+                t.load(b, C::Edge(Box::leak(cur.clone().into_boxed_str()), 0), 0, &nm);
+                cur = nm;
+            }
+            t.run_until_site(b, SITES[site_i], 1);
+            // A unlinks N(i+1)..N(i+m) by CAS on the edge of Ni
+            let i = (i as usize).min(n as usize - 1);
+            let tgt = (i + m as usize + 1).min(n as usize + 1);
+            t.pin(a);
+            t.load(a, C::Root(0), 0, "a0");
+            let mut acur = "a0".to_string();
+            for d in 0..i {
+                let nm = format!("a{}", d + 1);
+                t.load(a, C::Edge(Box::leak(acur.clone().into_boxed_str()), 0), 0, &nm);
+                acur = nm;
+            }
+            // acur = Ni ; expected = N(i+1) ; desired = counted N(tgt) or null
+            let holder: &'static str = Box::leak(acur.clone().into_boxed_str());
+            t.load(a, C::Edge(holder, 0), 0, "exp");
+            let mut w = "exp".to_string();
+            for d in (i + 1)..tgt {
+                let nm = format!("w{}", d);
+                t.load(a, C::Edge(Box::leak(w.clone().into_boxed_str()), 0), 0, &nm);
+                w = nm;
+            }
+            if counted_desired && tgt <= n as usize {
+                t.counted(a, &w, "des");
+                t.cas(a, C::Edge(holder, 0), Some("exp"), Some("des"), true, "old", "cur");
+            } else {
+                t.cas(a, C::Edge(holder, 0), Some("exp"), None, true, "old", "cur");
+            }
+            t.drop_rc(a, "old");
+            t.unpin(a, 0);
+            t.advance(a, j);
+            t.run(a);
+            t.advance(c, k);
+            t.run(c);
+            // B continues through whatever it holds, including unlinked nodes
+            t.run(b);
+            for d in 0..=walk.min(n) {
+                t.deref_s(b, &format!("s{}", d));
+            }
+            let nm = "sx";
+            t.load(b, C::Edge(Box::leak(cur.clone().into_boxed_str()), 0), 0, nm);
+            t.deref_s(b, nm);
+            t.counted(b, nm, "Bx");
+            t.deref(b, "Bx");
+            t.unpin(b, 0);
+            t.drop_rc(b, "Bx");
+            t.run(b);
+            t.advance(c, 5);
+            t.run(c);
+            t.finish(align, "T3")
+        })
+        .boxed()
+}
+
+/// T4: weak upgrade racing a cascade. R0 -> P -> X (-> Y), a Weak to X in U.
+pub fn t4() -> BoxedStrategy<Value> {
+    (
+        0u8..48,
+        (0u8..6, 0usize..7, 0u8..3, any::<bool>(), any::<bool>()),
+        (0u8..5, 0u8..4, 0usize..6, any::<bool>()),
+    )
+        .prop_map(|(align, (j, csite_i, place, via_snapshot, with_y), (k, wait, usite_i, restamp))| {
+            const CSITES: [u32; 7] = [0, site::CASC_CAS, site::CASC_STATE, site::CASC_MARK_CAS, site::CASC_LOAD, site::TD_CAS, site::CASC_WEAKED];
+            const USITES: [u32; 6] = [0, site::INC_S_1, site::INC_S_2, site::IND_LOAD, site::IND_CAS, site::DEC_S_CAS];
+            let (a, u, c) = (0usize, 1usize, 2usize);
+            let mut t = TB::new(3);
+            if with_y {
+                t.new_node(a, "Y", None, None, 3, 50);
+                t.new_node(a, "X", Some("Y"), None, 3, 0);
+                t.drop_rc(a, "Y");
+            } else {
+                t.new_node(a, "X", None, None, 3, 40);
+            }
+            t.downgrade(a, "X", "w");
+            t.new_node(a, "P", Some("X"), None, 3, 0);
+            t.drop_rc(a, "X");
+            t.pin(a);
+            t.wstore(a, WC::Root(0), Some("w"), 0);
+            t.store(a, C::Root(0), Some("P"), 0);
+            t.unpin(a, 0);
+            for _ in 0..wait {
+                t.advance(a, 1);
+            }
+            t.run(a);
+            t.pin(u);
+            t.wload(u, WC::Root(0), 0, "ws");
+            t.wcounted(u, "ws", "w");
+            t.unpin(u, 0);
+            t.run(u);
+            if restamp {
+                // an upgrade + drop re-stamps X shortly before the cascade looks at it
+                t.upgrade(u, "w", true, "Xr");
+                t.drop_rc(u, "Xr");
+                t.run(u);
+            }
+            // A unlinks P
+            t.swap_null(a, C::Root(0), "P");
+            t.drop_rc(a, "P");
+            t.advance(a, j);
+            t.run(a);
+            let upg = |t: &mut TB, park: u32| {
+                if via_snapshot {
+                    t.pin(u);
+                    t.wsnapshot(u, "w", 0, "ws");
+                    t.run(u);
+                    t.wupgrade(u, "ws", true, "s");
+                    t.run_until_site(u, park, 1);
+                } else {
+                    t.upgrade(u, "w", true, "Xu");
+                    t.run_until_site(u, park, 1);
+                }
+            };
+            let fin = |t: &mut TB| {
+                if via_snapshot {
+                    t.deref_s(u, "s");
+                    t.counted(u, "s", "Xu");
+                    t.unpin(u, 0);
+                }
+                t.deref(u, "Xu");
+                t.run(u);
+            };
+            match place {
+                0 => {
+                    // before the collection
+                    upg(&mut t, USITES[usite_i]);
+                    t.advance(c, 4 + k);
+                    t.run(c);
+                    fin(&mut t);
+                }
+                1 => {
+                    // during: the collector is parked inside the cascade
+                    t.advance(c, 4 + k);
+                    t.run_until_site(c, CSITES[csite_i], 1);
+                    upg(&mut t, 0);
+                    fin(&mut t);
+                    t.run(c);
+                }
+                _ => {
+                    // after
+                    t.advance(c, 4 + k);
+                    t.run(c);
+                    upg(&mut t, 0);
+                    fin(&mut t);
+                }
+            }
+            t.advance(c, 6);
+            t.run(c);
+            t.deref(u, "Xu");
+            t.upgrade(u, "w", false, "Xv");
+            t.raw(u, crate::rcworld::K::Deref, 1, 0, 0);
+            t.run(u);
+            t.advance(c, 3);
+            t.run(c);
+            t.finish(align, "T4")
+        })
+        .boxed()
+}
+
+/// T5: install into an already unlinked node (the `get_mut` comment in strong.rs).
+pub fn t5() -> BoxedStrategy<Value> {
+    (
+        0u8..48,
+        (0u8..4, 0u8..4, 0u8..5, 0u8..3, any::<bool>()),
+        (0usize..4, 0u8..3),
+    )
+        .prop_map(|(align, (j1, j2, k, how, t3_keeps_snapshot), (site_i, late))| {
+            const SITES: [u32; 4] = [0, site::LINK_SWAP, site::EPOCH_LOADED, site::LINK_CAS];
+            let (t1, t2, t3) = (0usize, 1usize, 2usize);
+            let mut t = TB::new(3);
+            // N1 under root0
+            t.new_node(t2, "N1", None, None, 3, 2);
+            t.pin(t2);
+            t.store(t2, C::Root(0), Some("N1"), 0);
+            t.unpin(t2, 0);
+            t.run(t2);
+            // T1 pins and holds a snapshot of N1
+            t.pin(t1);
+            t.load(t1, C::Root(0), 0, "n1");
+            t.run(t1);
+            // T2 unlinks N1
+            t.swap_null(t2, C::Root(0), "N1");
+            t.drop_rc(t2, "N1");
+            t.advance(t2, j1);
+            t.run(t2);
+            // T3 pins later, creates N2 (higher rank), keeps a snapshot, passes the Rc through root1
+            t.pin(t3);
+            t.new_node(t3, "N2", None, None, 3, 30);
+            if t3_keeps_snapshot {
+                t.rc_snapshot(t3, "N2", 0, "n2");
+            }
+            t.store(t3, C::Root(1), Some("N2"), 0);
+            if t3_keeps_snapshot {
+                // T3 later reads it back from where T1 put it
+            }
+            t.run(t3);
+            t.advance(t2, j2);
+            t.run(t2);
+            // T1 moves it into N1.edge0 and unpins
+            t.swap_null(t1, C::Root(1), "N2");
+            match how {
+                0 => t.store(t1, C::Edge("n1", 0), Some("N2"), 0),
+                1 => {
+                    t.swap(t1, C::Edge("n1", 0), "N2", "0old");
+                }
+                _ => t.cas(t1, C::Edge("n1", 0), None, Some("N2"), true, "0prev", "cur"),
+            }
+            t.run_until_site(t1, SITES[site_i], 1);
+            if late > 0 {
+                t.advance(t2, late);
+                t.run(t2);
+            }
+            t.unpin(t1, 0);
+            t.run(t1);
+            // collection
+            t.advance(t2, k);
+            t.run(t2);
+            // T3 uses N2
+            if t3_keeps_snapshot {
+                t.deref_s(t3, "n2");
+                t.counted(t3, "n2", "N2c");
+                t.deref(t3, "N2c");
+            }
+            t.unpin(t3, 0);
+            t.run(t3);
+            t.advance(t2, 6);
+            t.run(t2);
+            t.finish(align, "T5")
+        })
+        .boxed()
+}
+
+/// T6: zero-weak re-count, with an optional continuation in which the re-counted Weak is
+/// published, read by a second reader and dropped again.
+pub fn t6() -> BoxedStrategy<Value> {
+    (
+        0u8..48,
+        (0u8..5, 0usize..6, 0u8..4, 0u8..5, any::<bool>()),
+        (any::<bool>(), 0u8..4, 0u8..4, any::<bool>(), 0usize..4),
+    )
+        .prop_map(|(align, (j, site_i, mid, k, destructed_first), (cont, j2, k2, r2_upgrade, dsite_i))| {
+            const SITES: [u32; 6] = [0, site::INC_W_FA1, site::INC_W_FA2, site::INC_W_LOAD, site::INC_W_CAS, site::DEC_W];
+            const DSITES: [u32; 4] = [0, site::DEC_W, site::TDA_LOAD, site::EPOCH_LOADED];
+            let (t0, r, r2) = (0usize, 1usize, 2usize);
+            let mut t = TB::new(3);
+            t.new_node(t0, "X", None, None, 3, 10);
+            t.downgrade(t0, "X", "w");
+            t.pin(t0);
+            t.wstore(t0, WC::Root(0), Some("w"), 0);
+            t.unpin(t0, 0);
+            if destructed_first {
+                t.drop_rc(t0, "X");
+                t.advance(t0, 5);
+            }
+            t.run(t0);
+            // R: pin, load the weak pointer
+            t.pin(r);
+            t.wload(r, WC::Root(0), 0, "ws");
+            t.run(r);
+            // T: remove and drop the last Weak (and the last Rc, if still there)
+            if !destructed_first {
+                t.drop_rc(t0, "X");
+            }
+            t.wswap(t0, WC::Root(0), None, "wl");
+            t.wdrop(t0, "wl");
+            t.run_until_site(t0, DSITES[dsite_i], 1);
+            t.advance(r2, j);
+            t.run(r2);
+            // R re-counts from its snapshot, parked inside
+            t.wcounted(r, "ws", "wr");
+            t.run_until_site(r, SITES[site_i], 1);
+            t.run(t0);
+            t.advance(r2, mid);
+            t.run(r2);
+            t.run(r);
+            if cont {
+                // publish the re-counted Weak, leave the critical section
+                t.wstore(r, WC::Root(1), Some("wr"), 0);
+                t.unpin(r, 0);
+                t.run(r);
+                t.advance(t0, j2);
+                t.run(t0);
+                // second reader
+                t.pin(r2);
+                t.wload(r2, WC::Root(1), 0, "ws2");
+                t.run(r2);
+                t.wswap(t0, WC::Root(1), None, "wl2");
+                t.wdrop(t0, "wl2");
+                t.advance(t0, k2);
+                t.run(t0);
+                if r2_upgrade {
+                    t.wupgrade(r2, "ws2", false, "sx");
+                }
+                t.wcounted(r2, "ws2", "wr2");
+                t.raw(r2, crate::rcworld::K::Upgrade, 0, 0, 0);
+                t.unpin(r2, 0);
+                t.wdrop(r2, "wr2");
+                t.run(r2);
+            } else {
+                t.unpin(r, 0);
+                t.run(r);
+                t.advance(t0, k);
+                t.run(t0);
+                t.upgrade(r, "wr", false, "Xn");
+                t.wclone(r, "wr", "wr2");
+                t.wdrop(r, "wr");
+                t.advance(r, 3);
+                t.wdrop(r, "wr2");
+                t.run(r);
+            }
+            t.advance(t0, 6);
+            t.run(t0);
+            t.finish(align, "T6")
+        })
+        .boxed()
+}
+
+/// T7: restamp then CAS (strong cells), optionally with a concurrent re-stamp between two
+/// hardware CAS attempts of the same call.
+pub fn t7() -> BoxedStrategy<Value> {
+    (
+        0u8..48,
+        (0u8..5, 0u8..3, 0u8..8, 0u8..4, any::<bool>()),
+        (0u32..4, 0u8..3, 0u8..3, any::<bool>()),
+    )
+        .prop_map(|(align, (k, how, tag, cell_sel, desired_null), (nth, k2, how2, tagged_expected))| {
+            let (a, b) = (0usize, 1usize);
+            let mut t = TB::new(2);
+            t.new_node(a, "X", None, None, 3, 20);
+            t.new_node(a, "D", None, None, 3, 30);
+            if tag > 0 {
+                t.raw(a, crate::rcworld::K::RcTag, 0, tag, 0);
+            }
+            t.pin(a);
+            t.clone_rc(a, "X", "Xc");
+            t.store(a, C::Root(cell_sel % 2), Some("Xc"), 0);
+            // expected: loaded from the cell now, or a snapshot of the Rc (which carries no stamp)
+            if tagged_expected {
+                t.rc_snapshot(a, "X", 0, "e");
+            } else {
+                t.load(a, C::Root(cell_sel % 2), 0, "e");
+            }
+            t.run(a);
+            // the same pointer (same tag) is written again at a later epoch
+            let restamp = |t: &mut TB, th: usize, rounds: u8, how: u8| {
+                t.advance(th, rounds);
+                t.pin(th);
+                t.load(th, C::Root(cell_sel % 2), 0, "c");
+                match how {
+                    0 => {
+                        t.counted(th, "c", "Cc");
+                        t.store(th, C::Root(cell_sel % 2), Some("Cc"), 0);
+                    }
+                    1 => t.cas_tag(th, C::Root(cell_sel % 2), "c", tag, "c2"),
+                    _ => {
+                        t.counted(th, "c", "Cc");
+                        t.swap(th, C::Root(cell_sel % 2), "Cc", "Cold");
+                        t.drop_rc(th, "Cold");
+                    }
+                }
+                t.unpin(th, 0);
+                t.run(th);
+            };
+            restamp(&mut t, b, k, how);
+            // CAS with the old expected: must succeed; optionally parked before its nth hardware CAS
+            t.cas(a, C::Root(cell_sel % 2), Some("e"), if desired_null { None } else { Some("D") }, true, "prev", "cur");
+            if nth > 0 {
+                t.run_until_site(a, site::LINK_CAS, nth);
+                restamp(&mut t, b, k2, how2);
+            }
+            t.run(a);
+            t.deref(a, "prev");
+            t.unpin(a, 0);
+            t.run(a);
+            t.advance(b, 4);
+            t.run(b);
+            t.finish(align, "T7")
+        })
+        .boxed()
+}
+
+/// T7w: the same for AtomicWeak, the expected WeakSnapshot coming from all three sources.
+pub fn t7w() -> BoxedStrategy<Value> {
+    (
+        0u8..48,
+        (0u8..5, 0u8..3, 0u8..8, 0u8..3, any::<bool>()),
+        (0u32..3, 0u8..3),
+    )
+        .prop_map(|(align, (k, source, tag, how, desired_null), (nth, k2))| {
+            let (a, b) = (0usize, 1usize);
+            let mut t = TB::new(2);
+            t.new_node(a, "X", None, None, 3, 20);
+            t.new_node(a, "D", None, None, 3, 30);
+            if tag > 0 {
+                t.raw(a, crate::rcworld::K::RcTag, 0, tag, 0);
+            }
+            t.downgrade(a, "X", "w");
+            t.downgrade(a, "D", "wd");
+            t.pin(a);
+            t.wclone(a, "w", "wc");
+            t.wstore(a, WC::Root(0), Some("wc"), 0);
+            // also keep X in a strong cell written now (its content carries this epoch's stamp)
+            t.clone_rc(a, "X", "Xc");
+            t.store(a, C::Root(0), Some("Xc"), 0);
+            t.unpin(a, 0);
+            t.run(a);
+            t.advance(b, k);
+            t.run(b);
+            t.pin(a);
+            match source {
+                0 => t.wload(a, WC::Root(0), 0, "e"),
+                1 => {
+                    // downgraded from a Snapshot loaded from an AtomicRc written at another epoch
+                    t.clone_rc(a, "X", "Xd");
+                    t.store(a, C::Root(1), Some("Xd"), 0);
+                    t.load(a, C::Root(1), 0, "sx");
+                    t.snap_downgrade(a, "sx", "e");
+                }
+                _ => t.wsnapshot(a, "w", 0, "e"),
+            }
+            t.run(a);
+            if how > 0 {
+                // re-write the same weak pointer through another path
+                t.pin(b);
+                t.wload(b, WC::Root(0), 0, "c");
+                t.wcounted(b, "c", "Cc");
+                if how == 1 {
+                    t.wstore(b, WC::Root(0), Some("Cc"), 0);
+                } else {
+                    t.wswap(b, WC::Root(0), Some("Cc"), "Cold");
+                    t.wdrop(b, "Cold");
+                }
+                t.unpin(b, 0);
+                t.run(b);
+            }
+            t.wcas(a, WC::Root(0), Some("e"), if desired_null { None } else { Some("wd") }, true, "prev", "cur");
+            if nth > 0 {
+                t.run_until_site(a, site::WLINK_CAS, nth);
+                t.advance(b, k2);
+                t.run(b);
+            }
+            t.run(a);
+            t.unpin(a, 0);
+            t.run(a);
+            t.advance(b, 4);
+            t.run(b);
+            t.finish(align, "T7w")
         })
         .boxed()
 }
